@@ -1,83 +1,113 @@
-//! engine binary skeleton: see ../CONTRIBUTING.md
-use vmon::report::Report;
+//! vmon_oas: the Rust side of the C07 / C08 document oracles.
+//!
+//!   vmon_oas c08-dump --out F [--part corpus|dyn] [--seed N] [--shard I] [--count K]
+//!       JSON lines: for every corpus API / dynamic case the published
+//!       document plus, per type, the SOURCE schema (schemars, openapi3
+//!       settings) and where it is placed in the document.
+//!   vmon_oas c07-zoo-serve [--doc PATH]
+//!       starts the API zoo, prints `PORT <n>` and `DOC <path>`, serves until
+//!       stdin closes.
+//!
+//! The verdicts are computed by /verif/py/oas_c08.py and /verif/py/oas_c07.py
+//! (independent validator: python jsonschema).
+mod corpus;
+mod dynschema;
+mod zoo;
 
-pub struct Args {
-    pub engine: String,
-    pub seed: u64,
-    pub tier: String,
-    pub out: String,
-    pub threads: usize,
-}
+use std::io::Write;
 
 fn usage() -> ! {
-    eprintln!("usage: <bin> <engine> --seed N --tier quick|thorough --out FILE [--threads N]");
+    eprintln!(
+        "usage: vmon_oas c08-dump --out F [--part corpus|dyn] [--seed N] [--shard I] [--count K]\n       vmon_oas c07-zoo-serve [--doc PATH] [--workers N]"
+    );
     std::process::exit(2)
+}
+
+struct Args {
+    cmd: String,
+    out: String,
+    part: String,
+    seed: u64,
+    shard: u64,
+    count: u64,
+    doc: String,
+    workers: usize,
 }
 
 fn parse_args() -> Args {
     let mut a = std::env::args().skip(1);
-    let engine = a.next().unwrap_or_else(|| usage());
-    let mut args = Args { engine, seed: 1, tier: "quick".into(), out: String::new(), threads: 16 };
+    let cmd = a.next().unwrap_or_else(|| usage());
+    let mut args = Args {
+        cmd,
+        out: String::new(),
+        part: "corpus".into(),
+        seed: 1,
+        shard: 0,
+        count: 100,
+        doc: String::new(),
+        workers: 8,
+    };
     while let Some(k) = a.next() {
+        let mut val = || a.next().unwrap_or_else(|| usage());
         match k.as_str() {
-            "--seed" => args.seed = a.next().and_then(|s| s.parse().ok()).unwrap_or_else(|| usage()),
-            "--tier" => args.tier = a.next().unwrap_or_else(|| usage()),
-            "--out" => args.out = a.next().unwrap_or_else(|| usage()),
-            "--threads" => args.threads = a.next().and_then(|s| s.parse().ok()).unwrap_or_else(|| usage()),
+            "--out" => args.out = val(),
+            "--part" => args.part = val(),
+            "--seed" => args.seed = val().parse().unwrap_or_else(|_| usage()),
+            "--shard" => args.shard = val().parse().unwrap_or_else(|_| usage()),
+            "--count" => args.count = val().parse().unwrap_or_else(|_| usage()),
+            "--doc" => args.doc = val(),
+            "--workers" => args.workers = val().parse().unwrap_or_else(|_| usage()),
+            "--tier" => {
+                let _ = val();
+            }
             _ => usage(),
         }
     }
     args
 }
 
-/// run `f(shard)` on `n` threads and merge the reports
-#[allow(dead_code)]
-fn sharded<F>(n: usize, f: F) -> Report
-where
-    F: Fn(u64) -> Report + Send + Sync + 'static,
-{
-    let f = std::sync::Arc::new(f);
-    let hs: Vec<_> = (0..n)
-        .map(|i| {
-            let f = f.clone();
-            std::thread::Builder::new()
-                .name(format!("shard{i}"))
-                .stack_size(16 << 20)
-                .spawn(move || f(i as u64))
-                .unwrap()
-        })
-        .collect();
-    let mut it = hs.into_iter();
-    let mut rep = it.next().unwrap().join().expect("shard thread panicked");
-    for h in it {
-        rep.merge(h.join().expect("shard thread panicked"));
+fn c08_dump(args: &Args) {
+    let mut out: Box<dyn Write> = if args.out.is_empty() {
+        Box::new(std::io::stdout().lock())
+    } else {
+        Box::new(std::io::BufWriter::new(std::fs::File::create(&args.out).expect("create --out")))
+    };
+    match args.part.as_str() {
+        "corpus" => {
+            for reg in corpus::all() {
+                let api = reg.api_name.clone();
+                let (doc, entries) = reg.finish();
+                let line = serde_json::json!({"kind": "corpus", "api": api, "document": doc, "entries": entries});
+                writeln!(out, "{}", serde_json::to_string(&line).unwrap()).unwrap();
+            }
+        }
+        "dyn" => {
+            for i in 0..args.count {
+                let line = dynschema::dyn_case(args.seed, args.shard, i);
+                writeln!(out, "{}", serde_json::to_string(&line).unwrap()).unwrap();
+            }
+        }
+        _ => usage(),
     }
-    rep
+    out.flush().unwrap();
 }
 
 fn main() {
     vmon::panics::install();
     let args = parse_args();
-    let t0 = std::time::Instant::now();
-    let _quick = args.tier != "thorough";
-    let mut rep: Report = match args.engine.as_str() {
-        // "<engine-name>" => ...,
+    match args.cmd.as_str() {
+        "c08-dump" => c08_dump(&args),
+        "c07-zoo-serve" => zoo::serve(&args.doc, args.workers),
+        "c07-zoo-doc" => {
+            println!("{}", serde_json::to_string_pretty(&zoo::document()).unwrap());
+        }
         _ => usage(),
-    };
-    for p in vmon::panics::take_unexpected() {
-        rep.violate(
-            format!("{}:unexpected-panic", rep.property),
-            serde_json::json!({"location": p.location, "message": p.message, "thread": p.thread}),
-        );
     }
-    let mut j = rep.to_json();
-    j["wall_s"] = serde_json::json!(t0.elapsed().as_secs_f64());
-    j["seed"] = serde_json::json!(args.seed);
-    j["tier"] = serde_json::json!(args.tier);
-    let text = serde_json::to_string_pretty(&j).unwrap();
-    if args.out.is_empty() {
-        println!("{text}");
-    } else {
-        std::fs::write(&args.out, text).expect("write report");
+    let unexpected = vmon::panics::take_unexpected();
+    if !unexpected.is_empty() {
+        for p in unexpected {
+            eprintln!("UNEXPECTED PANIC at {}: {}", p.location, p.message);
+        }
+        std::process::exit(3);
     }
 }
